@@ -124,8 +124,11 @@ MUTANTS = {
         "send_ignores_done": [("_core.py", "        if self.done:\n            return\n\n        # If no transport is specified", "        # If no transport is specified")],
         "cleanup_timer_not_cancelled": [("_engine.py", "        self._cleanup_timer.cancel()", "        pass")],
         "no_goodbye_on_close": [("asyncio.py", "        await self.async_unregister_all_services()\n        await self.zeroconf._async_close()", "        await self.zeroconf._async_close()")],
-        "goodbye_twice_on_close": [("_core.py", "        \"\"\"Send the goodbye packet for all services at intervals.\"\"\"\n        for i in range(_REGISTER_BROADCASTS):", "        \"\"\"Send the goodbye packet for all services at intervals.\"\"\"\n        for i in range(2):")],
+        "goodbye_twice_on_close": [("_core.py", "        \"\"\"Send a goodbye packet at intervals.\"\"\"\n        for i in range(_REGISTER_BROADCASTS):", "        \"\"\"Send a goodbye packet at intervals.\"\"\"\n        for i in range(2):")],
         "transports_not_closed": [("_engine.py", "        for wrapped_transport in itertools.chain(self.senders, self.readers):\n            wrapped_transport.transport.close()", "        pass")],
+        "threaded_browser_never_stopped": [("_services/browser.py", "        self.queue.put(None)\n", "        pass\n")],
+        "sync_close_leaves_threaded_browsers": [("_core.py", "        if self.done:\n            return\n        self.remove_all_service_listeners()\n        self.done = True",
+                                                 "        if self.done:\n            return\n        self.done = True")],
         "sync_close_skips_goodbye": [("_core.py", "            else:\n                self.unregister_all_services()", "            else:\n                pass")],
     },
     "C09": {
